@@ -39,6 +39,7 @@ func init() { props["C08"] = runC08 }
 // ---------------------------------------------------------------- trees
 
 type c08Node struct {
+	ArgN  []int    // for G: number of cells of each range argument (nil = one argument)
 	Keys  []string // for G: the cells of the range arguments, row-major, in argument order
 	Kind  string // N X L R G neg pct par bin
 	S     string // literal text / key
@@ -112,6 +113,13 @@ func c08TreeEnc(n *c08Node, sb *strings.Builder) {
 		sb.WriteString("D:" + hx(n.S) + ":" + hx(n.Spell))
 	case "G":
 		sb.WriteString("G:" + n.Op + ":" + hx(n.Spell) + ":" + hx(strings.Join(n.Keys, ",")))
+		if len(n.ArgN) > 1 {
+			var sz []string
+			for _, k := range n.ArgN {
+				sz = append(sz, strconv.Itoa(k))
+			}
+			sb.WriteString(":" + hx(strings.Join(sz, ",")))
+		}
 	case "neg", "pct", "par":
 		sb.WriteString(n.Kind)
 		c08TreeEnc(n.A, sb)
@@ -155,7 +163,14 @@ func c08TreeDec(w []string) (*c08Node, []string, bool) {
 		if len(parts) < 4 {
 			return nil, nil, false
 		}
-		return &c08Node{Kind: "G", Op: parts[1], Spell: c08unhx(parts[2]), Keys: strings.Split(c08unhx(parts[3]), ",")}, rest, true
+		g := &c08Node{Kind: "G", Op: parts[1], Spell: c08unhx(parts[2]), Keys: strings.Split(c08unhx(parts[3]), ",")}
+		if len(parts) > 4 {
+			for _, x := range strings.Split(c08unhx(parts[4]), ",") {
+				k, _ := strconv.Atoi(x)
+				g.ArgN = append(g.ArgN, k)
+			}
+		}
+		return g, rest, true
 	case "R":
 		sp := ""
 		if len(parts) > 2 {
@@ -209,6 +224,14 @@ func c08Tokens(formula string, spell map[string]string) (string, int) {
 			if !ok {
 				k = "?" + t.TValue // unknown reference: the model's env has no such key
 			}
+			if strings.HasPrefix(k, "@G:") { // a range argument of a call: its cells
+				out = append(out, "g:"+hx(k[3:]))
+				continue
+			}
+			if strings.HasPrefix(k, "@DG:") { // a defined range name as a call argument
+				out = append(out, "dg:"+hx(t.TValue)+":"+hx(k[4:]))
+				continue
+			}
 			if strings.HasPrefix(k, "@D:") {
 				out = append(out, "d:"+hx(t.TValue)+":"+hx(k[3:]))
 				continue
@@ -220,6 +243,12 @@ func c08Tokens(formula string, spell map[string]string) (string, int) {
 			out = append(out, "p:"+hx(t.TValue))
 		case t.TType == efp.TokenTypeOperatorPostfix:
 			out = append(out, "q:"+hx(t.TValue))
+		case t.TType == efp.TokenTypeFunction && t.TSubType == efp.TokenSubTypeStart:
+			out = append(out, "fs:"+hx(t.TValue))
+		case t.TType == efp.TokenTypeFunction && t.TSubType == efp.TokenSubTypeStop:
+			out = append(out, "fe")
+		case t.TType == efp.TokenTypeArgument:
+			out = append(out, "as")
 		case t.TType == efp.TokenTypeSubexpression && t.TSubType == efp.TokenSubTypeStart:
 			out = append(out, "(")
 		case t.TType == efp.TokenTypeSubexpression && t.TSubType == efp.TokenSubTypeStop:
@@ -1016,7 +1045,9 @@ func (st *c08State) rawFormula(r *Run, text string) {
 		r.Stat("raw:no-tokens")
 		return
 	}
-	if strings.Contains(" "+toks+" ", " o ") || strings.Contains(toks, "r:"+hx("?")[:2]) {
+	padded := " " + toks + " "
+	if strings.Contains(padded, " o ") || strings.Contains(toks, "r:"+hx("?")[:2]) ||
+		strings.Contains(padded, " fs:") || strings.Contains(padded, " fe ") || strings.Contains(padded, " as ") {
 		r.Stat("raw:outside-core")
 		return
 	}
@@ -1451,7 +1482,11 @@ func c08Replay(r *Run, path string) {
 			}
 		case "ev":
 			if t := treeOf(w); t != nil {
-				st.formula(r, "ev", "", t, false)
+				if c08HasKind(t, "G") {
+					st.aggFormula(r, t)
+				} else {
+					st.formula(r, "ev", "", t, false)
+				}
 			}
 		case "main":
 			if len(w) > 1 {
